@@ -178,6 +178,20 @@ func c14EphInproc(proto, server, mode string, conns [][]c14EphReq) string {
 			timing = "pre"
 		}
 		real, _, replies := c14ServeCaseX(proto, 0, timing, "one", wire)
+		for try := 0; try < 1; try++ { // a reply that missed the watchdog must miss it twice to count
+			got, want := 0, 0
+			for i := range wire {
+				want += len(wire[i])
+				if replies != nil {
+					got += len(replies[i])
+				}
+			}
+			if got >= want || strings.HasPrefix(real, "harness:") {
+				break
+			}
+			Stat("eph:watchdog-retry")
+			real, _, replies = c14ServeCaseX(proto, 0, timing, "one", wire)
+		}
 		if strings.HasPrefix(real, "harness:") {
 			return real
 		}
